@@ -612,9 +612,10 @@ func writerFor(f int) gozxing.Writer {
 }
 
 func pick(rng *rand.Rand, alphabet string, n int) string {
-	b := make([]byte, n)
+	rs := []rune(alphabet)
+	b := make([]rune, n)
 	for i := range b {
-		b[i] = alphabet[rng.Intn(len(alphabet))]
+		b[i] = rs[rng.Intn(len(rs))]
 	}
 	return string(b)
 }
@@ -677,7 +678,7 @@ func content(f int, rng *rand.Rand) (string, map[gozxing.EncodeHintType]interfac
 		case 1:
 			return pick(rng, "ABCDEF abcdef 0123 !#$", 1+rng.Intn(16)), nil
 		}
-		return pick(rng, "ñòóôAB12", 1+rng.Intn(10)), nil
+		return pick(rng, "\x01\x02\x1fab{}~AB12", 1+rng.Intn(10)), nil
 	case 9:
 		return pick(rng, digits, 2+2*rng.Intn(10)), nil
 	case 10:
@@ -1105,7 +1106,7 @@ func call(e *ev) func() (bool, error) {
 				var nat *gozxing.BitMatrix
 				nat, err = w.Encode(txt, writerFormats[f], 0, 0, wh)
 				if err == nil {
-					m, err = w.Encode(txt, writerFormats[f], nat.GetWidth()*scale, height, wh)
+					m, err = w.Encode(txt, writerFormats[f], (nat.GetWidth()+14)*scale, height, wh) // 7 more quiet modules per side
 				}
 			}
 			if err != nil || m == nil {
